@@ -478,9 +478,9 @@ class Pair(GraphFamily):
             if it % 25 == 0:
                 # long tables with many duplicates: numpy's sort-based isin path
                 nL, nR = rng.randint(20, 45), rng.randint(20, 45)
-            big = rng.random() < 0.2
-            rowsL = [[rng.choice(alphabet(dt, big=big)) for dt in ldt] for _ in range(nL)]
-            rowsR = [[rng.choice(alphabet(dt, big=big)) for dt in rdt] for _ in range(nR)]
+            alpha = make_alpha(rng, big=rng.random() < 0.2) if rng.random() < 0.7 else (lambda dt, _b=(rng.random() < 0.2): alphabet(dt, big=_b))
+            rowsL = [[rng.choice(alpha(dt)) for dt in ldt] for _ in range(nL)]
+            rowsR = [[rng.choice(alpha(dt)) for dt in rdt] for _ in range(nR)]
             sel = [rng.random() < rng.choice([0.0, 0.5, 0.5, 1.0]) for _ in range(nR)]
             ca, cb = list(range(len(ldt))), list(range(len(rdt)))
             if len(ca) == len(cb) and len(ca) > 1 and rng.random() < 0.3:
@@ -501,14 +501,37 @@ class Pair(GraphFamily):
 # join graphs: chains, cycles, self-joins, several evaluators, dict order, link removal
 # ------------------------------------------------------------------------------------------
 
-def random_dataset(rng, special=False, big=False, nd=False):
+def make_alpha(rng, special=False, big=False):
+    """A small per-case alphabet shared by all datasets of the case (so that keys do match):
+    3 numbers, 3 strings, plus big integers / special floats when asked for."""
+    nums = rng.sample(INT_ALPHA, 3)
+    half = rng.random() < 0.3
+    strs = rng.sample(STR_ALPHA, 3)
+    bigs = rng.sample(INT_BIG, 2) if big else []
+    specials = rng.sample(FLT_SPECIAL, 2) if special else []
+
+    def alpha(dt):
+        k = kind(dt)
+        if k == "i":
+            return [v for v in nums + bigs if fits(v, dt)] or [0]
+        if k == "f":
+            return [fbits(float(v), dt) for v in nums] + ([fbits(1.5, dt)] if half else []) + [fbits(v, dt) for v in specials]
+        w = int(dt[1:])
+        out = [[ord(c) for c in x] for x in strs if len(x) <= w] or [[]]
+        if special and w >= 2:
+            out.append([97, 0])
+        return out
+    return alpha
+
+
+def random_dataset(rng, alpha, nd=False):
     dts = [rng.choice(INT_DT + FLT_DT), rng.choice(INT_DT + ["i8", "i8"] + FLT_DT), rng.choice(STR_DT)]
-    if nd and rng.random() < 0.5:
+    if nd and rng.random() < 0.3:
         shape = rng.choice([[2, 2], [2, 3], [1, 2]])
     else:
-        shape = [rng.choice([0, 1, 2, 3, 3, 4])]
+        shape = [rng.choice([0, 1, 2, 3, 3, 4, 5])]
     n = int(np.prod(shape))
-    rows = [[rng.choice(alphabet(dt, special=special, big=big)) for dt in dts] for _ in range(n)]
+    rows = [[rng.choice(alpha(dt)) for dt in dts] for _ in range(n)]
     return [dts, shape, rows, None]
 
 
@@ -591,8 +614,8 @@ class Graph(GraphFamily):
 
     def random_case(self, rng, special=False):
         nds = rng.choice([1, 2, 3, 3, 4, 4])
-        big = rng.random() < 0.15
-        dsets = [random_dataset(rng, special=special, big=big, nd=True) for _ in range(nds)]
+        alpha = make_alpha(rng, special=special, big=rng.random() < 0.15)
+        dsets = [random_dataset(rng, alpha, nd=True) for _ in range(nds)]
         pairs = topologies(nds)
         topo = rng.choice(["chain", "cycle", "star", "random", "random"])
         if topo == "chain":
@@ -637,9 +660,12 @@ class Graph(GraphFamily):
             ev = [i for i in range(nds) if rng.random() < 0.5]
         for i in ev:
             nrow = int(np.prod(dsets[i][1]))
-            p = rng.choice([0.0, 0.5, 0.5, 0.5, 1.0])
+            p = rng.choice([0.0, 0.5, 0.5, 0.5, 0.5, 1.0])
             dsets[i][3] = [rng.random() < p for _ in range(nrow)]
         d = rng.randrange(nds)
+        others = [i for i in range(nds) if i not in ev]
+        if others and rng.random() < 0.85:
+            d = rng.choice(others)
         skind = rng.choice(["table", "ineq", "elem"]) if len(ev) == 1 else "table"
         return [dsets, ops, [d, random_view(rng, dsets[d][1])], skind]
 
@@ -678,7 +704,7 @@ class Special(Graph):
 PROP = Property(
     id="C11",
     title="Key joins propagate selections by key membership, in all four join shapes",
-    theorems=["C11.join_terminates", "C11.join_terminates_flags", "C11.join_first_path", "C11.join_incompatible_iff",
+    theorems=["C11.join_terminates", "C11.join_terminates_flags", "C11.join_first_path", "C11.join_incompatible_iff", "C11.paths_iff_joinPath",
               "C11.join_1_1", "C11.join_1_n", "C11.join_n_1", "C11.join_n_n", "C11.enc_injective", "C11.stripZ_injective",
               "C11.bytes_eq_iff_tuple_eq", "C11.join_chain", "C11.join_view", "C11.impl_eq_spec", "C11.join_correct",
               "C11.nn_dtype_mismatch", "C11.nn_dtype_false_positive", "C11.nn_string_width_mismatch", "C11.nn_float_specials"],
